@@ -1,7 +1,266 @@
+/-
+  CB.Driver.C10 — op lines of property C10 (inversion and gcd).  Every result is printed as
+  `L1 ;; L0`: L1 = the model mirroring the crate, L0 = what the property demands
+  (`Nat.gcd`, the modular inverse iff coprime), because `L1 = L0` rests on `H_divsteps_done`.
+-/
 import CB.Driver.Util
+import CB.Model.Gcd
 namespace CB
+open CB.InvMod2k CB.SafeGcd CB.Gcd
 
-/-- operations of property C10 (op names start with `c10.`) -/
-def dispatchC10 : Dispatch := fun _ _ => none
+namespace C10Driver
+
+def optTok : Option Nat → String
+  | none => "none"
+  | some x => natToHex x
+
+def rTok : R → String
+  | .panic => "panic"
+  | .none => "none"
+  | .some x => natToHex x
+
+def both (l1 l0 : String) : String := l1 ++ " ;; " ++ l0
+
+/-- `inv_odd_mod` for `n`-limb fixed operands on values (`SafeGcdInverter::new(m, ONE).inv(a)`). -/
+def fixedInv (vartime : Bool) (n a m adj : Nat) : InvOut :=
+  let inv := Inverter.new n (toLimbs n m) (toLimbs n adj)
+  if vartime then inv.invVartime n (toLimbs n a) else inv.inv n (toLimbs n a)
+
+def invOutOpt (o : InvOut) : Option Nat := if o.isSome then some (val o.value) else none
+
+def fixedInvOdd (n : Nat) (a m : Nat) : Option Nat := invOutOpt (fixedInv false n a m 1)
+
+/-- boxed inverter; `none` = the `assert!(!is_negative)` panic of `BoxedUnsatInt::to_uint`. -/
+def boxedInv (vartime : Bool) (a m adj : List Nat) : Option (Option Nat) :=
+  let o := (Inverter.newBoxed m adj).invBoxed vartime a
+  if o.negative then none else some (invOutOpt o)
+
+def boxedInvOddVal (l : Nat) (a m : Nat) : Option Nat :=
+  match boxedInv false (toLimbs l a) (toLimbs l m) [1] with
+  | some r => r
+  | none => none
+
+/-- L0 for inversion mod 2^k -/
+def specInv2k (a k : Nat) : Option Nat :=
+  if k = 0 then some 0 else if a % 2 = 1 then specInv (a % 2 ^ k) (2 ^ k) else none
+
+/-- Montgomery-form inversion on values: `R = 2^(64n)`; retrieve by multiplying with `R⁻¹`. -/
+def montyInv (n a m : Nat) (run : Nat → Nat → Option (Option Nat)) : String :=
+  let r := 2 ^ (64 * n)
+  let mf := (a % m * (r % m)) % m          -- MontyForm::new: a·R mod m
+  let r2 := (r % m) * (r % m) % m          -- params.r2
+  match run mf r2 with
+  | none => "panic"
+  | some none => "none"
+  | some (some v) =>
+    match specInv (r % m) m with
+    | some ri => natToHex (v * ri % m)
+    | none => "bad-modulus"
+
+def p3 (n a b : String) : Option (Nat × Nat × Nat) :=
+  match n.toNat?, hexToNat? a, hexToNat? b with
+  | some n, some a, some b => some (n, a, b)
+  | _, _, _ => none
+
+def flag? (s : String) : Option Bool :=
+  if s = "0" then some false else if s = "1" then some true else none
+
+/-- slack report for an inversion/gcd run: `iterations trips slack` -/
+def slackTok (iters trips : Nat) : String := s!"{iters} {trips} {iters - trips}"
+
+end C10Driver
+open C10Driver
+
+def dispatchC10 : Dispatch := fun op args =>
+  match op, args with
+  -- ---------------------------------------------------------------- mod 2^k
+  | "c10.u.inv_mod2k", [n, a, k] =>
+    match n.toNat?, hexToNat? a, k.toNat? with
+    | some n, some a, some k =>
+      let r := invMod2k (64 * n) a k
+      some (both (optTok (if r.2 then some r.1 else none)) (optTok (specInv2k a k)))
+    | _, _, _ => badArgs
+  | "c10.u.inv_mod2k_vartime", [n, a, k] =>
+    match n.toNat?, hexToNat? a, k.toNat? with
+    | some n, some a, some k =>
+      let l1 := match invMod2kVartime (64 * n) a k with
+        | none => "panic"
+        | some r => optTok (if r.2 then some r.1 else none)
+      some (both l1 (optTok (specInv2k a k)))
+    | _, _, _ => badArgs
+  | "c10.hook.inv_mod2k_full_vartime", [n, a, k] =>
+    match n.toNat?, hexToNat? a, k.toNat? with
+    | some n, some a, some k => some (optTok (invMod2kFullVartime (64 * n) a k))
+    | _, _, _ => badArgs
+  | "c10.b.inv_mod2k", [n, a, k] =>
+    match n.toNat?, hexToNat? a, k.toNat? with
+    | some n, some a, some k =>
+      let r := invMod2k (64 * n) a k
+      some (both (optTok (if r.2 then some r.1 else none)) (optTok (specInv2k a k)))
+    | _, _, _ => badArgs
+  | "c10.b.inv_mod2k_vartime", [n, a, k] =>
+    match n.toNat?, hexToNat? a, k.toNat? with
+    | some n, some a, some k =>
+      let r := invMod2kVartimeBoxed (64 * n) a k
+      some (both (optTok (if r.2 then some r.1 else none)) (optTok (specInv2k a k)))
+    | _, _, _ => badArgs
+  -- ---------------------------------------------------------------- general modulus
+  | "c10.u.inv_mod", [n, a, m] | "c10.u.inv_mod_trait", [n, a, m] =>
+    match p3 n a m with
+    | some (n, a, m) => some (both (rTok (invModWith (fixedInvOdd n) (64 * n) a m)) (optTok (specInv a m)))
+    | none => badArgs
+  | "c10.u.inv_mod_m0", [n, a, _form] =>
+    match n.toNat?, hexToNat? a with
+    | some n, some a => some (both (rTok (invModWith (fixedInvOdd n) (64 * n) a 0)) (optTok (specInv a 0)))
+    | _, _ => badArgs
+  | "c10.b.inv_mod", [n, a, m] | "c10.b.inv_mod_trait", [n, a, m] =>
+    match p3 n a m with
+    | some (n, a, m) =>
+      -- the odd-part inversion is evaluated first; its `to_uint` assertion may panic
+      let w := 64 * n
+      let k := tz w m
+      let s := if k < w then m / 2 ^ k else 0
+      let l1 := match boxedInv false (toLimbs n a) (toLimbs n s) [1] with
+        | none => "panic"
+        | some _ => rTok (invModBoxedWith (boxedInvOddVal n) w a m)
+      some (both l1 (optTok (specInv a m)))
+    | none => badArgs
+  | "c10.u.inv_odd_mod", [n, a, m] =>
+    match p3 n a m with
+    | some (n, a, m) => some (both (optTok (fixedInvOdd n a m)) (optTok (specInv a m)))
+    | none => badArgs
+  | "c10.b.inv_odd_mod", [n, a, m] =>
+    match p3 n a m with
+    | some (n, a, m) =>
+      let l1 := match boxedInv false (toLimbs n a) (toLimbs n m) [1] with
+        | none => "panic"
+        | some r => optTok r
+      some (both l1 (optTok (specInv a m)))
+    | none => badArgs
+  | "c10.b.inv_odd_mod_mixed", [la, a, lm, m] =>
+    match la.toNat?, hexToNat? a, lm.toNat?, hexToNat? m with
+    | some la, some a, some lm, some m =>
+      let l1 := match boxedInv false (toLimbs la a) (toLimbs lm m) [1] with
+        | none => "panic"
+        | some r => optTok r
+      some (both l1 (optTok (specInv a m)))
+    | _, _, _, _ => badArgs
+  | "c10.u.inverter", [n, m, a, vt] =>
+    match p3 n m a, flag? vt with
+    | some (n, m, a), some vt => some (both (optTok (invOutOpt (fixedInv vt n a m 1))) (optTok (specInv a m)))
+    | _, _ => badArgs
+  | "c10.b.inverter", [n, m, a, vt] =>
+    match p3 n m a, flag? vt with
+    | some (n, m, a), some vt =>
+      let l1 := match boxedInv vt (toLimbs n a) (toLimbs n m) [1] with
+        | none => "panic"
+        | some r => optTok r
+      some (both l1 (optTok (specInv a m)))
+    | _, _ => badArgs
+  -- ---------------------------------------------------------------- Montgomery forms
+  | "c10.u.monty_inv", [n, m, a, form] | "c10.c.monty_inv", [n, m, a, form] =>
+    match p3 n m a, form.toNat? with
+    | some (n, m, a), some form =>
+      let vt := form % 2 = 1
+      let l1 := montyInv n a m fun mf r2 => some (invOutOpt (fixedInv vt n mf m r2))
+      some (both l1 (optTok (specInv a m)))
+    | _, _ => badArgs
+  | "c10.b.monty_inv", [n, m, a, form] =>
+    match p3 n m a, form.toNat? with
+    | some (n, m, a), some form =>
+      let vt := form % 2 = 1
+      let l1 := montyInv n a m fun mf r2 => boxedInv vt (toLimbs n mf) (toLimbs n m) (toLimbs n r2)
+      some (both l1 (optTok (specInv a m)))
+    | _, _ => badArgs
+  -- ---------------------------------------------------------------- signed inversion
+  | "c10.i.inv_odd_mod", [n, a, m] =>
+    match p3 n a m with
+    | some (n, a, m) =>
+      let w := 64 * n
+      let (ab, neg) := absSign w a
+      let l0 := (specInv ab m).map fun x => if neg then (m - x) % m else x
+      some (both (optTok (signedFix w m neg (fixedInvOdd n ab m))) (optTok l0))
+    | none => badArgs
+  | "c10.i.inv_mod", [n, a, m] =>
+    match p3 n a m with
+    | some (n, a, m) =>
+      let w := 64 * n
+      let (ab, neg) := absSign w a
+      let l1 := match invModWith (fixedInvOdd n) w ab m with
+        | .panic => "panic"
+        | .none => "none"
+        | .some x => optTok (signedFix w m neg (some x))
+      -- the inverse of the signed value: -(|a|⁻¹) mod m
+      let l0 := (specInv ab m).map fun x => if neg then (m - x) % m else x
+      some (both l1 (optTok l0))
+    | none => badArgs
+  -- ---------------------------------------------------------------- gcd
+  | "c10.u.gcd", [n, a, b] =>
+    match p3 n a b with
+    | some (n, a, b) => some (both (natToHex (uintGcd n a b)) (natToHex (specGcd a b)))
+    | none => badArgs
+  | "c10.u.gcd_trait", [n, a, b, vt] | "c10.u.gcd_int", [n, a, b, vt] | "c10.i.gcd", [n, a, b, vt]
+  | "c10.i.gcd_uint", [n, a, b, vt] =>
+    match p3 n a b, flag? vt with
+    | some (n, a, b), some vt =>
+      let w := 64 * n
+      let a := if op = "c10.i.gcd" || op = "c10.i.gcd_uint" then iabs w a else a
+      let b := if op = "c10.i.gcd" || op = "c10.u.gcd_int" then iabs w b else b
+      let l1 := if vt then uintGcdVartime n a b else uintGcd n a b
+      some (both (natToHex l1) (natToHex (specGcd a b)))
+    | _, _ => badArgs
+  | "c10.u.odd_gcd", [n, f, g, form] =>
+    -- form 0: Gcd::gcd, 1: Gcd::gcd_vartime, 2: inherent Odd::gcd_vartime
+    match p3 n f g, form.toNat? with
+    | some (n, f, g), some form =>
+      some (both (natToHex (oddGcdFixed (form ≠ 0) n f g)) (natToHex (specGcd f g)))
+    | _, _ => badArgs
+  | "c10.b.gcd", [n, a, b, vt] =>
+    match p3 n a b, flag? vt with
+    | some (n, a, b), some vt =>
+      let r := if vt then boxedGcdVartime (toLimbs n a) (toLimbs n b) else boxedGcd (toLimbs n a) (toLimbs n b)
+      some (both (match r with | none => "panic" | some v => limbsHex v) (natToHex (specGcd a b)))
+    | _, _ => badArgs
+  | "c10.b.odd_gcd", [n, f, g, vt] =>
+    match p3 n f g, flag? vt with
+    | some (n, f, g), some vt =>
+      let r := boxedOddGcd vt (toLimbs n f) (toLimbs n g)
+      some (both (match r with | none => "panic" | some v => limbsHex v) (natToHex (specGcd f g)))
+    | _, _ => badArgs
+  | "c10.b.gcd_mixed", [la, a, lb, b, vt] =>
+    match la.toNat?, hexToNat? a, lb.toNat?, hexToNat? b, flag? vt with
+    | some la, some a, some lb, some b, some vt =>
+      let r := if vt then boxedGcdVartime (toLimbs la a) (toLimbs lb b) else boxedGcd (toLimbs la a) (toLimbs lb b)
+      some (both (match r with | none => "panic" | some v => limbsHex v) (natToHex (specGcd a b)))
+    | _, _, _, _, _ => badArgs
+  | "c10.b.odd_gcd_mixed", [la, a, lb, b, vt] =>
+    match la.toNat?, hexToNat? a, lb.toNat?, hexToNat? b, flag? vt with
+    | some la, some a, some lb, some b, some vt =>
+      let r := boxedOddGcd vt (toLimbs la a) (toLimbs lb b)
+      some (both (match r with | none => "panic" | some v => limbsHex v) (natToHex (specGcd a b)))
+    | _, _, _, _, _ => badArgs
+  -- ---------------------------------------------------------------- model-only reports (not generated)
+  | "c10.slack.inv", [n, a, m] =>
+    match p3 n a m with
+    | some (n, a, m) =>
+      let inv := Inverter.new n (toLimbs n m) (toLimbs n 1)
+      let g := fromUint (toLimbs n a) inv.modulus.length
+      let iters := iterations (ubits inv.modulus) (ubits g)
+      let o := inv.invVartime n (toLimbs n a)
+      some (slackTok iters o.trips)
+    | none => badArgs
+  | "c10.slack.gcd", [n, f, g] =>
+    match p3 n f g with
+    | some (n, f, g) =>
+      let o := gcdFixed true n (toLimbs n f) (toLimbs n g)
+      some (slackTok o.iters o.trips)
+    | none => badArgs
+  | "c10.slack.bgcd", [n, f, g] =>
+    match p3 n f g with
+    | some (n, f, g) =>
+      let o := gcdBoxed true (toLimbs n f) (toLimbs n g)
+      some (slackTok o.iters o.trips)
+    | none => badArgs
+  | _, _ => none
 
 end CB
